@@ -242,6 +242,26 @@ class Func(object):
             s = nxt
         return out
 
+    def direct_guard(self, bid):
+        """(condition string node id, polarity) of the innermost dominating edge of block bid, or None"""
+        g = self.guards(bid, transitive=False)
+        idom = self.idom()
+        b = bid
+        guard = 0
+        while not g and b in idom and idom[b] != b and guard < 1000:
+            # blocks that merely follow straight-line code share the guard of their single-predecessor dominator
+            if len(set(self.pred[b])) != 1 and not self.postdominates_block(b, idom[b]):
+                break       # a real join of different conditions
+            b = idom[b]
+            g = self.guards(b, transitive=False)
+            guard += 1
+        for (d, i) in g:
+            t = self.blocks[d].get("term") or {}
+            c = t.get("lc", t.get("c"))
+            if c is not None and len(self.succ[d]) == 2:
+                return (c, i == 0)
+        return None
+
     def control_dependence(self, bid):
         """classic transitive control dependence (block may execute only if ...); NOT a set of facts"""
         cd = self.control_deps()
